@@ -363,6 +363,9 @@ def run_check(prop: str, tier: str, seed: int, jobs: int, replay: str | None = N
     print(f"[{prop}] tier={tier} seed={seed} units={len(units)} jobs={jobs}", file=sys.stderr, flush=True)
     results = run_units(prop, units, jobs, x64=x64)
 
+    if os.environ.get("VERIF_TIMING"):
+        for r in sorted(results, key=lambda r: -r["wall"])[:12]:
+            print(f"  timing {r['wall']:7.1f}s {r['name']}", file=sys.stderr)
     agg = dict(states=0, transitions=0, traces=0, evals=0, diamonds=0)
     outcomes = set()
     dims = collections.defaultdict(set)
